@@ -696,12 +696,13 @@ func parseDuration(s string) (time.Duration, error) {
 
 // Parse possible boolean values to golang bool.
 func parseBoolean(s string) (bool, error) {
-	s = strings.TrimSpace(s)
+	// The spellings are not case sensitive (MIT krb5 compares them with strcasecmp)
+	s = strings.ToLower(strings.TrimSpace(s))
 	v, err := strconv.ParseBool(s)
 	if err == nil {
 		return v, nil
 	}
-	switch strings.ToLower(s) {
+	switch s {
 	case "yes":
 		return true, nil
 	case "y":
